@@ -1,11 +1,30 @@
-(* C04 — stored form of every commit against the Tree.v codec; read-back identity flags from the harness. *)
-From Coq Require Import List NArith Bool.
+(* C04 — stored form of every commit against the Tree.v codec; read-back identity flags from the harness;
+   texts, operations, commit decisions, the final read and the names in commits against Accept.v;
+   the edit clocks of the chain against ClockWrap.readable. *)
+From Coq Require Import List NArith Bool Arith.
 Import ListNotations.
-From GB Require Export Decimal Tree.
+From GB Require Export Decimal Tree Accept.
+From GB Require ClockWrap.
 Local Open Scope N_scope.
 
+(* a text the case uses: bytes, and what the implementation says of it (text.Empty, text.Safe, text.SafeOneLine) *)
+Record text := mktext { t_bytes : list N; t_empty : bool; t_safe : bool; t_line : bool }.
+(* an attempt to make an operation: texts (indices) that have to be non-empty and one-line safe / one-line safe /
+   safe / valid UTF-8; whether that is the whole rule for this kind; whether the operation was accepted *)
+Record opatt := mkop { o_line : list nat; o_line0 : list nat; o_multi : list nat; o_utf8 : list nat; o_predict : bool; o_accepted : bool }.
+(* an object of the bug is (re)read from the repository / commits: kinds of all its operations, numbers of the
+   staged ones, authors and files of the staged ones stored, Commit returned nil *)
+Inductive ev := ELoad (h : nat) | ECommit (h : nat) (kinds : list N) (new : list nat) (prereq : bool) (accepted : bool).
+
 Record case := mkcase4 { k_gogit : bool (* go-git backend: trees are stored sorted; the in-memory test backend keeps the given order *);
-                        k_trees : list (list entry); k_flags : list bool }.
+                        k_trees : list (list entry); k_flags : list bool;
+                        k_texts : list text; k_ops : list opatt; k_evs : list ev;
+                        k_readable : bool (* the bug could be read at the end *); k_read : list nat (* numbers of the operations read *);
+                        k_pairs : list (nat * nat) (* text of a committed operation in memory, read back (indices in k_texts) *);
+                        k_names : list (list N * list N) (* configured name, name in the commit written *) }.
+
+Definition text_at (c : case) (i : nat) : list N := match nth_error (k_texts c) i with Some t => t_bytes t | None => [] end.
+Definition rep (n : nat) (u : list N) : list N := concat (repeat u n).
 
 Definition entry_eqb (a b : entry) : bool := str_eqb (fst a) (fst b) && Bool.eqb (snd a) (snd b).
 Fixpoint entries_eqb (a b : list entry) : bool :=
@@ -19,21 +38,86 @@ Definition tree_agrees (gogit : bool) (l : list entry) : bool :=
   | ROk v true e c => entries_eqb (store_tree {| t_version := v; t_edit := e; t_create := c; t_extra := has_extra l |}) (if gogit then l else git_sort l)
   | _ => false
   end.
-Definition agrees (c : case) : bool := forallb (tree_agrees (k_gogit c)) (k_trees c).
+
+(* ---- texts and operations ---- *)
+Record tverdict := mktv { v_valid : bool; v_safe : bool; v_line : bool; v_empty : bool }.
+Definition verdict (t : text) : tverdict :=
+  let b := t_bytes t in mktv (valid b) (safe b) (safe_line b) (t_empty t).
+Definition tv0 : tverdict := mktv false false false true.
+Definition op_valid (tv : list tverdict) (o : opatt) : bool :=
+  if o_predict o then
+    forallb (fun i => let v := nth i tv tv0 in v_line v && negb (v_empty v)) (o_line o) &&
+    forallb (fun i => v_line (nth i tv tv0)) (o_line0 o) &&
+    forallb (fun i => v_safe (nth i tv tv0)) (o_multi o) &&
+    forallb (fun i => v_valid (nth i tv tv0)) (o_utf8 o)
+  else o_accepted o.
+Definition op0 : opatt := mkop [] [] [] [] false false.
+
+(* ---- commit decisions: Accept.hrun with the compare-and-set guard ---- *)
+Definition to_hev (ov : list bool) (e : ev) : hev :=
+  match e with
+  | ELoad h => HLoad h
+  | ECommit h kinds new prereq _ =>
+      HCommit h (shape_ok kinds && forallb (fun n => nth n ov false) new && prereq && negb (match new with [] => true | _ => false end)) new
+  end.
+Definition observed (evs : list ev) : list bool :=
+  flat_map (fun e => match e with ECommit _ _ _ _ a => [a] | _ => [] end) evs.
+Definition committed_obs (evs : list ev) : list nat :=
+  flat_map (fun e => match e with ECommit _ _ new _ true => new | _ => [] end) evs.
+Fixpoint bools_eqb (a b : list bool) : bool :=
+  match a, b with [], [] => true | x :: a', y :: b' => Bool.eqb x y && bools_eqb a' b' | _, _ => false end.
+
+(* ---- the edit clocks along the chain ---- *)
+Definition edit_of_tree (l : list entry) : N := match read_entries 4 l with ROk _ _ e _ => e | _ => 0 end.
+Fixpoint chain_readable (p : N) (es : list N) : bool :=
+  match es with [] => true | e :: t => ClockWrap.readable p e && chain_readable e t end.
+Definition trees_readable (ts : list (list entry)) : bool :=
+  match map edit_of_tree ts with [] => true | e :: t => negb (e =? 0) && chain_readable e t end.
+
+Definition model (c : case) :=
+  let tv := map verdict (k_texts c) in
+  let ov := map (op_valid tv) (k_ops c) in
+  (tv, ov, hrun true hs0 (map (to_hev ov) (k_evs c))).
+
+Definition agrees (c : case) : bool :=
+  let '(tv, ov, (_, log, decisions)) := model c in
+  forallb (tree_agrees (k_gogit c)) (k_trees c) &&
+  (* text.Safe, text.SafeOneLine *)
+  forallb (fun x => Bool.eqb (v_safe (snd x)) (t_safe (fst x)) && Bool.eqb (v_line (snd x)) (t_line (fst x))) (combine (k_texts c) tv) &&
+  (* what the editing API accepts *)
+  bools_eqb ov (map o_accepted (k_ops c)) &&
+  (* what Commit accepts *)
+  bools_eqb decisions (observed (k_evs c)) &&
+  (* what is read at the end: the operations of the accepted commits, in that order *)
+  (negb (k_readable c) || nats_eqb (k_read c) log) &&
+  (* readable: nothing but the clock rules of dag.read can make unreadable what Commit accepted *)
+  Bool.eqb (k_readable c) (trees_readable (k_trees c)) &&
+  (* encoding/json *)
+  forallb (fun p => str_eqb (stored (text_at c (fst p))) (text_at c (snd p))) (k_pairs c) &&
+  (* repository.identConfig *)
+  forallb (fun p => str_eqb (clean (fst p)) (snd p)) (k_names c).
 
 Definition C04_ok (c : case) : bool :=
+  let any := existsb (fun b => b) (observed (k_evs c)) in
   forallb (fun b => b) (k_flags c) &&
   forallb (fun l => (negb (k_gogit c) || sorted_strict l) && match read_entries 4 l with ROk _ true e _ => negb (N.eqb e 0) | _ => false end) (k_trees c) &&
   (* the root pack, and only it, carries the creation clock *)
   match k_trees c with
-  | [] => false
+  | [] => negb any
   | root :: rest =>
       match read_entries 4 root with ROk _ _ _ cr => negb (N.eqb cr 0) | _ => false end &&
       forallb (fun l => match read_entries 4 l with ROk _ _ _ cr => N.eqb cr 0 | _ => false end) rest
-  end.
+  end &&
+  (* what Commit accepted can be read, and every operation of an accepted commit is read *)
+  (negb any || k_readable c) &&
+  (negb (k_readable c) || forallb (fun n => existsb (Nat.eqb n) (k_read c)) (committed_obs (k_evs c))) &&
+  (* texts are read back byte for byte *)
+  forallb (fun p => str_eqb (text_at c (fst p)) (text_at c (snd p))) (k_pairs c).
 
 Fixpoint index_filter {A} (f : A -> bool) (i : nat) (l : list A) : list nat :=
   match l with [] => [] | x :: t => if f x then index_filter f (S i) t else i :: index_filter f (S i) t end.
 Definition mismatches (cs : list case) : list nat := index_filter agrees 0 cs.
 Definition failing (cs : list case) : list nat := index_filter C04_ok 0 cs.
-Definition explain (c : case) := map (read_entries 4) (k_trees c).
+Definition explain (c : case) :=
+  let '(tv, ov, (_, log, decisions)) := model c in
+  (map (read_entries 4) (k_trees c), map (fun v => (v_valid v, v_safe v, v_line v)) tv, ov, decisions, log, trees_readable (k_trees c)).
